@@ -28,6 +28,8 @@ class DhtWorld:
         self.requests_seen = {}     # rpc_id -> (method, key, requester addr, requester node id)
         self.requests_by_node = {}  # src addr -> count of find requests sent (for the termination bound)
         self.replied_from = {}      # receiver addr -> set of addrs a *response* was delivered from
+        self.replied_ids = {}       # receiver addr -> {source ip: set of node ids responses from that host carried}
+        self.endless = {}           # hostile addr -> counter (behaviours that never run out of fresh material)
         self.monitor = monitor
         self.monitor_checked = 0
         self.fabricated = set()     # node ids invented by hostile replies
@@ -37,10 +39,10 @@ class DhtWorld:
         self._hrng = run.rng('hostile')
 
     # ---- nodes ----------------------------------------------------------------------------------
-    def add_node(self, i, node_id, bootstrap=False, split_under=1):
+    def add_node(self, i, node_id, bootstrap=False, split_under=1, tcp_port=None):
         ip, port = node_addr(i)
         pm = self.PeerManager(self.loop)
-        node = self.Node(self.loop, pm, node_id, port, port, 3333 + (i % 60), ip,
+        node = self.Node(self.loop, pm, node_id, port, port, tcp_port if tcp_port is not None else 3333 + (i % 60), ip,
                          split_buckets_under_index=split_under, is_bootstrap_node=bootstrap)
         node._sim_index = i
         while len(self.nodes) <= i:
@@ -95,7 +97,23 @@ class DhtWorld:
             # "replied" = a datagram that reads as a response (however odd its payload) reached dst from
             # that host; the source port is not part of a contact's identity (NAT rebinding)
             self.replied_from.setdefault(dst, set()).add(src[0])
+            nid = self._response_node_id(data)
+            if nid is not None:
+                self.replied_ids.setdefault(dst, {}).setdefault(src[0], set()).add(nid)
         return items
+
+    @staticmethod
+    def _response_node_id(data):
+        try:
+            root = bref.decode(data)
+            nid = root.get(2, root.get(b'2')) if isinstance(root, dict) else None
+            return nid if isinstance(nid, bytes) else None
+        except bref.RefError:
+            try:
+                from lbry.dht.serialization.datagram import decode_datagram
+                return decode_datagram(data).node_id
+            except Exception:  # noqa
+                return None
 
     @staticmethod
     def _looks_like_response(data):
@@ -215,6 +233,29 @@ class DhtWorld:
             return wrap(fab_triples(4, port=r.choice([0, 1, 80, 1023, -5, 65536, 70000])))
         if beh == 'closer_fabricated':
             return wrap(fab_triples(20))
+        if beh == 'alias_honest':
+            # made-up ids close to the key, each paired with the address of an HONEST node: that node answers the
+            # probe (under its own id), so the endpoint looks alive although the contact named never replied
+            honest = sorted(a for a in self.index_of if a not in self.hostile and a != req_addr)
+            if honest:
+                out = []
+                for t in fab_triples(r.choice([1, 2, 4])):
+                    a = r.choice(honest)
+                    out.append([t[0], a[0].encode(), a[1]])
+                return wrap(out)
+            return wrap(fab_triples(2))
+        if beh == 'key_as_id':
+            # the key itself as node id, at the hostile node's own endpoint: "found" without a single request to it
+            return wrap([[key, src[0].encode(), src[1]]] + fab_triples(r.choice([0, 2])))
+        if beh == 'endless_closer':
+            # never runs out: every reply names ONE new contact, closer to the key than all earlier ones, at the
+            # hostile node's own endpoint (the real node behind it answers the next probe, which is rewritten again)
+            c = self.endless[src] = self.endless.get(src, 0) + 1
+            kint = int.from_bytes(key, 'big')
+            d = (1 << 376) - c          # strictly closer every time, and 2**376 steps before it runs out
+            nid = (kint ^ d).to_bytes(48, 'big')
+            self.fabricated.add(nid)
+            return wrap([[nid, src[0].encode(), src[1]]])
         if beh == 'append_far_fabricated':
             # the genuine answer plus made-up contacts far from the key: they sort behind the probe window and
             # are still un-probed (status unknown) when the search ends
@@ -261,6 +302,12 @@ class DhtWorld:
                 return resp({b'token': b'\x00' * 48, b'p': 3, key: [c] * 8})
             if beh == 'many_pages':
                 return resp({b'token': b'\x00' * 48, b'p': 12, key: [compact() for _ in range(8)]})
+            if beh == 'endless_pages':
+                # never runs out: every page is full of fresh well-formed addresses and claims 2**40 pages
+                self.endless[src] = self.endless.get(src, 0) + 1
+                return resp({b'token': b'\x00' * 48, b'p': r.choice([2 ** 40, 2 ** 31, 10 ** 6]), b'contacts': [],
+                             key: [compact(ip=f"{r.choice([11, 23, 45, 67, 89, 130])}.{r.randint(0, 255)}.{r.randint(0, 255)}."
+                                              f"{r.randint(1, 254)}") for _ in range(8)]})
             if beh == 'requester_as_peer':
                 return resp({b'token': b'\x00' * 48, b'p': 1, key: [compact(ip=req_addr[0], port=3333, nid=req_id)]})
         return resp(r.choice([b'pong', b'OK', [], {b'token': b''}]))
@@ -269,7 +316,8 @@ class DhtWorld:
 HOSTILE_BEHAVIOURS = ['silent', 'garbage', 'truncated', 'wrong_types', 'short_triples', 'long_triples', 'reserved_ips',
                       'own_id', 'own_addr', 'low_ports', 'closer_fabricated', 'append_far_fabricated', 'append_far_fabricated', 'short_ids', 'error', 'error_bad_fields',
                       'wrong_rpc_id', 'claims_requester_id', 'other_address', 'other_port', 'no_token', 'bogus_p',
-                      'bad_compact', 'dup_compact', 'many_pages', 'requester_as_peer', 'misc']
+                      'bad_compact', 'dup_compact', 'many_pages', 'requester_as_peer', 'misc',
+                      'alias_honest', 'key_as_id', 'endless_closer', 'endless_pages']
 
 
 def _shape(data):
